@@ -23,10 +23,11 @@ still = []
 for m in missing:
     pkg, test = m.split("::", 1)
     rel = "./" + pkg.replace("github.com/gordian-engine/gordian/", "")
-    top = test.split("/")[0]
+    import re as _re
+    pat = "/".join("^" + _re.escape(seg) + "$" for seg in test.split("/"))  # this (sub)test only, not its flaky siblings
     ok = False
     for _ in range(3):
-        q = subprocess.run(["go", "test", "-vet=off", "-count=1", "-run", "^" + top + "$", rel], cwd=repo, env=env, stdout=subprocess.PIPE, stderr=subprocess.STDOUT, text=True)
+        q = subprocess.run(["go", "test", "-vet=off", "-count=1", "-run", pat, rel], cwd=repo, env=env, stdout=subprocess.PIPE, stderr=subprocess.STDOUT, text=True)
         if q.returncode == 0:
             ok = True
             break
